@@ -111,12 +111,38 @@ Theorem C10_no_in_place_write :
 Proof. exact no_in_place_write_src. Qed.
 Print Assumptions C10_no_in_place_write.
 
+(* Initialisation (beyond the property's "initialised store"): the first oci.New on an empty
+   directory is cut anywhere; the directory it leaves never makes a later oci.New fail, and
+   that New completes the layout: valid oci-layout, index.json without manifests, blobs/. *)
+Theorem C10_init_restartable :
+  forall (shuffle : nat -> list entry -> list entry),
+    (forall c l e, In e (shuffle c l) <-> In e l) ->
+    forall k,
+      let fsk := apply (firstn k (new_steps shuffle src_inplace src_layout_inplace empty_fs 0)) empty_fs in
+      let fs2 := apply (new_steps shuffle src_inplace src_layout_inplace fsk 1) fsk in
+      new_okb fsk = true /\
+      layout_okb fs2 = true /\ read_index fs2 = Some [] /\ dirs fs2 DBlobs = true /\
+      forall d, files fs2 (FBlob d) = None.
+Proof. exact init_restartable_src. Qed.
+Print Assumptions C10_init_restartable.
+
+(* oci-layout written in place (the code before the repair): refuted, cut after open(O_TRUNC) *)
+Theorem C10_init_refuted_layout_inplace :
+  forall (shuffle : nat -> list entry -> list entry),
+  exists k, new_okb (apply (firstn k (new_steps shuffle false true empty_fs 0)) empty_fs) = false.
+Proof. exact init_unrestartable_inplace. Qed.
+Print Assumptions C10_init_refuted_layout_inplace.
+
 (* the source orders the proof relies on: temp+rename index write, index before unlink,
    blob stored before it is tagged, ingest = create temp / copy+verify / chmod, then rename,
    GC = rebuild, save index, then sweep *)
 Theorem C10_source_order :
-  src_inplace = false /\ src_unlink_first = false /\ src_push_order_ok = true /\ src_gc_order_ok = true.
-Proof. exact (conj src_inplace_false (conj src_unlink_first_false (conj src_push_order src_gc_order))). Qed.
+  src_inplace = false /\ src_unlink_first = false /\ src_push_order_ok = true /\ src_gc_order_ok = true /\
+  src_layout_inplace = false.
+Proof.
+  exact (conj src_inplace_false (conj src_unlink_first_false (conj src_push_order
+          (conj src_gc_order src_layout_inplace_false)))).
+Qed.
 Print Assumptions C10_source_order.
 
 (* The code before the repair (os.WriteFile on index.json itself, [inplace = true]):
